@@ -86,6 +86,6 @@ def wide(c):
             continue
         ev = json.loads(open(trace).read().splitlines()[at - 1])
         bad = [s for s in ev.get("slots", []) if s[0] != s[1] or (s[0] == 1 and s[2] != s[3])][:5]
-        c.report_failure("kv: GetMany with %s keys (%s): a slot does not hold the record of the requested key" % (
+        c.report_failure("kv: GetMany with %s keys after one PutMany (%s): a slot does not hold the record of the requested key" % (
                          "more than 64" if ev.get("n", 0) > 64 else "few", variant),
-                         {"rejected_at_line": at, "n": ev.get("n"), "err": ev.get("err"), "len": ev.get("len"), "first_bad_slots": bad})
+                         {"rejected_at_line": at, "n": ev.get("n"), "putmany_records": ev.get("batch"), "first_expiration_at_index": ev.get("exp_from"), "err": ev.get("err"), "len": ev.get("len"), "first_bad_slots": bad})
